@@ -120,6 +120,30 @@ def replay(case):
             if why:
                 out.append(('operand_changed', 'tdmd modified its input trains (%s; dims %r, ranks %r)' % (why, dims, x.ranks)))
                 return out
+            if flags == 'default' and not out:
+                # second use of the same objects: the caller re-weights the snapshots in place (time cores x diag(1, 2, 1, ..),
+                # dims and ranks unchanged) and calls again - the result is the DMD of the new data
+                yy = y.copy()
+                D = np.array([1.0 + (j % 2) for j in range(cfg['m'])])
+                xx.cores[-1] = xx.cores[-1] * D[None, :, None, None]
+                yy_first = tdmd.tdmd_exact(xx, yy, threshold=thr)      # (xx new, yy old): warms any memo with the new xx
+                yy.cores[-1] = yy.cores[-1] * D[None, :, None, None]
+                X2, Y2 = mat(xx, N), mat(yy, N)
+                w2 = dmd_reference(X2, Y2, thr)[0]
+                sc2 = max(1.0, float(np.max(np.abs(w2))) if len(w2) else 1.0)
+                xx.cores[-1] = xx.cores[-1] * (1.0 / D)[None, :, None, None]
+                tdmd.tdmd_exact(xx, yy, threshold=thr)
+                xx.cores[-1] = xx.cores[-1] * D[None, :, None, None]
+                for name, f in (('exact', tdmd.tdmd_exact), ('standard', tdmd.tdmd_standard)):
+                    try:
+                        lam2 = np.asarray(f(xx, yy, threshold=thr)[0])
+                    except Exception as e:
+                        out.append(('tdmd_%s:second-use:exception:%s' % (name, type(e).__name__), repr(e)))
+                        continue
+                    if not multiset_close(lam2, w2, 1e-6 * sc2):
+                        out.append(('tdmd_%s:second-use' % name, 'second call with the same train objects after their time cores were re-weighted in '
+                                    'place: eigenvalues %r, matrix DMD of the new data %r (dims %r m=%d thr=%g)' % (
+                                        np.round(lam2, 6), np.round(w2, 6), dims, cfg['m'], thr)))
     return out
 
 
